@@ -103,6 +103,8 @@ func (c *fsCall) run(w *vWorld, cfg RawConfiguration) {
 			c.resp, c.err, c.returned = resp, err, true
 		}()
 	case ckCorrectable, ckCorrStream:
+		// (region marker: the wedge F-C09-stream needs a server-stream correctable call)
+		vKnown("R-corrstream", c.kind == ckCorrStream)
 		c.corr = cfg.CorrectableCall(c.ctx, CorrectableCallData{Message: c.req, Method: method, QuorumFunction: c.cqf, ServerStream: c.kind == ckCorrStream})
 		c.issued = true
 		go func() {
